@@ -11,6 +11,9 @@ for pid in ids:
         na.append({'property_id': pid, 'reason': 'check not built yet (Lean model planned, see DESIGN.md section 6); not claimed'})
         continue
     m = importlib.import_module('props.' + pid.lower())
+    if not getattr(m, 'READY', True):
+        na.append({'property_id': pid, 'reason': 'check under construction (module present, not yet green on the unchanged tree); not claimed'})
+        continue
     mf = getattr(m, 'MANIFEST', {})
     checks.append({
         'property_id': pid,
